@@ -193,6 +193,8 @@ Defined.
 Section Subst.
   Variable locals : list string.     (* TLA+ per-process variables (accessed as v[self]) *)
   Variable selfe : option expr.      (* single-process algorithms: the literal process id standing for self *)
+  Variable scratch : list string.    (* TLA+-only temporaries of old translations: written and read primed within one
+                                        step, never read unprimed (checked here), projected away at the commit *)
   Variable S : sstate.
 
   Definition is_self (e : expr) : bool :=
@@ -220,12 +222,14 @@ Section Subst.
         end in
     match e with
     | Nd (TVar x) [] => match lookup x m with Some e' => e' | None => e end
-    | Nd (TState x) [] => if mem x locals then e else EGlobal x
+    | Nd (TState x) [] => if mem x scratch then EUnsupported ("scratch variable read across steps: " ++ x)
+                          else if mem x locals then e else EGlobal x
     | Nd (TPrime x) [] => if mem x locals then e else cur_glob S x
     | Nd TApp [Nd (TState x) []; a] =>
         let a' := subst m a in
         if mem x locals then
           (if is_self a' then ELocal x else Nd TApp [Nd (TState x) []; a'])
+        else if mem x scratch then EUnsupported ("scratch variable read across steps: " ++ x)
         else Nd TApp [EGlobal x; a']
     | Nd TApp [Nd (TPrime x) []; a] =>
         let a' := subst m a in
@@ -297,6 +301,7 @@ Inductive mstmt :=
 | MWithSet (x : string) (s : expr)            (* with (x \in s) { rest } *)
 | MWithVal (x : string) (e : expr)            (* with (x = e) { rest } *)
 | MAssign (e : expr)                          (* $variable := e *)
+| MAssignPath (path : list expr) (e : expr)   (* $variable.f[i].. := e   (path = "f", i, ..) *)
 | MYield (e : expr)
 | MIf (c : expr) (t e : list mstmt)
 | MEither (bs : list (list mstmt))
@@ -340,53 +345,55 @@ Definition tgt_update (S : sstate) (t : target) (idx : list expr) (e : expr) : s
 Section Symex.
   Variable locals : list string.
   Variable selfe : option expr.
-  Definition sub (S : sstate) (e : expr) : expr := subst locals selfe S (s_env S) e.
+  Variable scratch : list string.
+  Definition sub (S : sstate) (e : expr) : expr := subst locals selfe scratch S (s_env S) e.
 
-  (* expansion of a mapping-macro body; k receives the state, whether $variable was assigned and
-     its current value, and the yielded expression *)
-  Fixpoint mexp (fuel : nat) (ms : list mstmt) (S : sstate) (assigned : bool) (yielded : option expr)
-           (k : sstate -> bool -> option expr -> dtree) {struct fuel} : dtree :=
+  (* expansion of a mapping-macro body over the resource (target t, mapping indices idx).
+     $variable always denotes  cur(t)[idx]  for the CURRENT symbolic value of t: an assignment to
+     $variable is an immediate update of t at idx (as in pgo's expansion into PlusCal); k receives
+     the state and the yielded expression *)
+  Definition with_var (S : sstate) (t : target) (idx : list expr) : sstate :=
+    set_env S "$variable" (apply_path (tgt_cur S t) idx).
+
+  Fixpoint mexp (fuel : nat) (t : target) (idx : list expr) (ms : list mstmt) (S : sstate) (yielded : option expr)
+           (k : sstate -> option expr -> dtree) {struct fuel} : dtree :=
     match fuel with
     | O => Fail "out of fuel (macro)"
     | Datatypes.S fuel =>
+      let ev e := sub (with_var S t idx) e in
       match ms with
-      | [] => k S assigned yielded
+      | [] => k S yielded
       | s :: rest =>
         match s with
-        | MAwait c => Branch (sub S c) (mexp fuel rest S assigned yielded k) (Leaf LAbort)
-        | MAssert c => Branch (sub S c) (mexp fuel rest S assigned yielded k) (Leaf LAssert)
-        | MWithSet x e => Choice (sub S e) (mexp fuel rest (push_choice S x) assigned yielded k)
-        | MWithVal x e => mexp fuel rest (set_env S x (sub S e)) assigned yielded k
-        | MAssign e => mexp fuel rest (set_env S "$variable" (sub S e)) true yielded k
-        | MYield e => mexp fuel rest S assigned (Some (sub S e)) k
-        | MIf c t e => Branch (sub S c) (mexp fuel (t ++ rest) S assigned yielded k) (mexp fuel (e ++ rest) S assigned yielded k)
-        | MEither bs => Either (map (fun b => mexp fuel (b ++ rest) S assigned yielded k) bs)
-        | MPrint e => mexp fuel rest (add_print S (sub S e)) assigned yielded k
-        | MSkip => mexp fuel rest S assigned yielded k
+        | MAwait c => Branch (ev c) (mexp fuel t idx rest S yielded k) (Leaf LAbort)
+        | MAssert c => Branch (ev c) (mexp fuel t idx rest S yielded k) (Leaf LAssert)
+        | MWithSet x e => Choice (ev e) (mexp fuel t idx rest (push_choice S x) yielded k)
+        | MWithVal x e => mexp fuel t idx rest (set_env S x (ev e)) yielded k
+        | MAssign e => mexp fuel t idx rest (tgt_update S t idx (ev e)) yielded k
+        | MAssignPath p e => mexp fuel t idx rest (tgt_update S t (idx ++ map ev p) (ev e)) yielded k
+        | MYield e => mexp fuel t idx rest S (Some (ev e)) k
+        | MIf c a b => Branch (ev c) (mexp fuel t idx (a ++ rest) S yielded k) (mexp fuel t idx (b ++ rest) S yielded k)
+        | MEither bs => Either (map (fun b => mexp fuel t idx (b ++ rest) S yielded k) bs)
+        | MPrint e => mexp fuel t idx rest (add_print S (ev e)) yielded k
+        | MSkip => mexp fuel t idx rest S yielded k
         end
       end
     end.
 
-  Definition var_of (S : sstate) : expr := match lookup "$variable" (s_env S) with Some e => e | None => EVar "$variable" end.
-
-  (* restore the caller's names after a macro body (macro-bound names must not leak, choice depth and stores stay) *)
+  (* restore the caller's names after a macro body (macro-bound names must not leak; stores and choice depth stay) *)
   Definition leave_macro (caller S : sstate) : sstate :=
     mkS (s_env caller) (s_hnd caller) (s_glob S) (s_loc S) (s_prints S) (s_depth S).
-  Definition leave_macro_keep_choices (caller S : sstate) : sstate := leave_macro caller S.
 
   Definition do_read (fuel : nat) (b : binding) (idx : list expr) (S : sstate) (k : sstate -> expr -> dtree) : dtree :=
     let t := b_target b in
-    let v := apply_path (tgt_cur S t) idx in
     match b_macro b with
-    | None => k S v
+    | None => k S (apply_path (tgt_cur S t) idx)
     | Some m =>
-        mexp fuel (m_read m) (set_env S "$variable" v) false None
-             (fun S' assigned y =>
-                let S'' := if assigned then tgt_update S' t idx (var_of S') else S' in
-                match y with
-                | Some r => k (leave_macro S S'') r
-                | None => Fail "read macro did not yield"
-                end)
+        mexp fuel t idx (m_read m) S None
+             (fun S' y => match y with
+                          | Some r => k (leave_macro S S') r
+                          | None => Fail "read macro did not yield"
+                          end)
     end.
 
   Definition do_write (fuel : nat) (b : binding) (idx : list expr) (e : expr) (S : sstate) (k : sstate -> dtree) : dtree :=
@@ -394,13 +401,11 @@ Section Symex.
     match b_macro b with
     | None => k (tgt_update S t idx e)
     | Some m =>
-        let v := apply_path (tgt_cur S t) idx in
-        mexp fuel (m_write m) (set_env (set_env S "$variable" v) "$value" e) false None
-             (fun S' _ y =>
-                match y with
-                | Some r => k (leave_macro S (tgt_update S' t idx r))
-                | None => Fail "write macro did not yield"
-                end)
+        mexp fuel t idx (m_write m) (set_env S "$value" e) None
+             (fun S' y => match y with
+                          | Some r => k (leave_macro S (tgt_update S' t idx r))
+                          | None => k (leave_macro S S')       (* the macro assigned $variable itself (or left it alone) *)
+                          end)
     end.
 
   Variable I : instance.
@@ -470,6 +475,21 @@ Section Symex.
     | Nd _ cs => existsb is_action cs
     end.
 
+  Fixpoint has_effect (e : expr) : bool :=
+    match e with
+    | Nd TUnchanged _ => true
+    | Nd (TOp B_Assert) _ => true
+    | Nd (TOp B_PrintT) _ => true
+    | Nd (TOp B_Print) _ => true
+    | Nd _ cs => existsb has_effect cs
+    end.
+
+  Fixpoint primes_assigned (S : sstate) (e : expr) : bool :=
+    match e with
+    | Nd (TPrime x) _ => match lookup x (s_glob S), lookup x (s_loc S) with None, None => false | _, _ => true end
+    | Nd _ cs => forallb (primes_assigned S) cs
+    end.
+
   Fixpoint has_at (e : expr) : bool :=
     match e with Nd TAt _ => true | Nd _ cs => existsb has_at cs end.
 
@@ -478,7 +498,7 @@ Section Symex.
     | O => Fail "out of fuel (tla)"
     | Datatypes.S fuel =>
       match todo with
-      | [] => commit S
+      | [] => Leaf (LCommit (filter (fun xe => negb (mem (fst xe) scratch)) (s_glob S)) (s_loc S) (s_prints S))
       | c :: rest =>
         if negb (is_action c) then Branch (sub S c) (symex_tla fuel rest S) (Leaf LAbort)
         else
@@ -492,6 +512,11 @@ Section Symex.
           | Nd TUnchanged _ => symex_tla fuel rest S
           | Nd (TOp B_Assert) (g :: _) => Branch (sub S g) (symex_tla fuel rest S) (Leaf LAssert)
           | Nd (TOp B_PrintT) [e] => symex_tla fuel rest (add_print S (sub S e))
+          | Nd (TOp B_eq) [Nd (TPrime x) []; Nd (TState y) []] =>
+              (* x' = x : the stock translator's UNCHANGED for a single variable *)
+              if String.eqb x y then symex_tla fuel rest S
+              else if mem x locals then Fail ("unrecognised assignment to per-process variable " ++ x)
+              else symex_tla fuel rest (set_glob S x (sub S (Nd (TState y) [])))
           | Nd (TOp B_eq) [Nd (TPrime x) []; e] =>
               if mem x locals then
                 match e with
@@ -510,7 +535,10 @@ Section Symex.
                 | _ => Fail ("unrecognised assignment to per-process variable " ++ x)
                 end
               else symex_tla fuel rest (set_glob S x (sub S e))
-          | _ => Fail "unrecognised action shape"
+          | _ =>
+              (* a condition that reads already-assigned primed variables (old translations:  Len(network[next']) < N ) *)
+              if has_effect c || negb (primes_assigned S c) then Fail "unrecognised action shape"
+              else Branch (sub S c) (symex_tla fuel rest S) (Leaf LAbort)
           end
       end
     end.
@@ -549,12 +577,21 @@ Fixpoint norm (t : dtree) : dtree :=
   | _ => t
   end.
 
+Fixpoint expr_unsupported (e : expr) : bool :=
+  match e with
+  | Nd (TUnsupported _) _ => true
+  | Nd _ cs => existsb expr_unsupported cs
+  end.
+
+(* a Fail node, or an expression the translators marked as outside their fragment *)
 Fixpoint has_fail (t : dtree) : bool :=
   match t with
   | Fail _ => true
+  | Leaf (LCommit g l p) => existsb (fun xe => expr_unsupported (snd xe)) g || existsb (fun xe => expr_unsupported (snd xe)) l
+                            || existsb expr_unsupported p
   | Leaf _ => false
-  | Branch _ a b => has_fail a || has_fail b
-  | Choice _ k => has_fail k
+  | Branch c a b => expr_unsupported c || has_fail a || has_fail b
+  | Choice s k => expr_unsupported s || has_fail k
   | Either ts => existsb has_fail ts
   end.
 
@@ -585,7 +622,7 @@ Definition equiv_check (t1 t2 : dtree) : bool :=
 (* canonical form of the operator definitions (parameters renamed by the same discipline) *)
 Definition canon_def (d : opdef) : opdef :=
   let '(f, (ps, body)) := d in
-  let b' := subst [] None s0 [] body in
+  let b' := subst [] None [] s0 [] body in
   let h := bheight b' in
   let rn := canon_map (Datatypes.S h) ps in
   (f, (map (fun p => match lookup p rn with Some y => y | None => p end) ps, rename rn b')).
